@@ -17,6 +17,7 @@ Clauses(rec) ==
   \cup If(o.kind = "ok" /\ i.tail # 0 /\ i.sfh = 0 /\ Spaced(i) /\
           \E h \in SetOf(o.lost) : TimeOf(i.pat, h) > TimeOf(i.pat, i.nhead) - i.w,
           "C16_no_header_younger_than_the_pruning_window_deleted")
+  \cup If(o.kind = "ok" /\ (Len(o.orphans) # 0 \/ ~o.gapFree \/ o.tail > o.head \/ o.tail < 1), "C03_store_stays_one_gap_free_run_Tail_Head")
   \cup If(o.knownRes = "nil", "C16_known_header_is_refused")
   \cup If(o.knownRes # "" /\ (o.knownTail # o.tail \/ Len(o.knownLost) # 0), "C16_refused_header_does_not_move_the_tail")
 TInit == l = 1 /\ in = [bt |-> 0] /\ phase = "trace" /\ out = Res("", 0)
